@@ -206,7 +206,7 @@ func realVerifier(payload, sig, vkey []byte, kesPeriod, slot, spkp uint64) (bool
 
 func TestC46(t *testing.T) {
 	rec := evi.New(t, "C46", evi.Exploration,
-		"rapid state machine over one MessageAuthenticator and 3 pools (ed25519 cold keys, depth-6 KES keys): actions register / unregister pool, submit a correctly signed message (issue number from a walk around the last accepted one, KES key evolved 0..3 periods, via VerifyMessage or VerifyMessageWithSlot), submit the same with exactly one of 13 corruptions, set / clear the real KES verifier (ledger.VerifyKesComponents), toggle insecure mode, drop the counter cache entry. Model: registered set + last accepted counter per pool + verifier/insecure flags; invariant after every submission: accepted <=> id ok AND cold signature ok AND (verifier set ? KES ok : insecure) AND registered AND counter >= last accepted; counter moves only on acceptance (observed through later submissions). non-trivial = a sequence containing >= 1 accepted and >= 1 rejected submission; distinct by the action history")
+		"rapid state machine over one MessageAuthenticator and 3 pools (ed25519 cold keys, depth-6 KES keys): actions register / unregister pool, submit a correctly signed message (issue number from a walk around the last accepted one with occasional jumps to 2^31, 2^32, 2^63, 2^64 edges, KES key evolved 0..3 periods, via VerifyMessage or VerifyMessageWithSlot), submit the same with exactly one of 13 corruptions, set / clear the real KES verifier (ledger.VerifyKesComponents), toggle insecure mode, drop the counter cache entry. Model: registered set + last accepted counter per pool + verifier/insecure flags; invariant after every submission: accepted <=> id ok AND cold signature ok AND (verifier set ? KES ok : insecure) AND registered AND counter >= last accepted; counter moves only on acceptance (observed through later submissions). non-trivial = a sequence containing >= 1 accepted and >= 1 rejected submission; distinct by the action history")
 	defer rec.Finish()
 	rec.Assume("the injected verifier is ledger.VerifyKesComponents (evolution = slot/slotsPerKESPeriod - payload KES period), i.e. the verifier a node would inject",
 		"KES signing itself is the library's kes package (its correctness is property C39)")
@@ -277,6 +277,11 @@ func TestC46(t *testing.T) {
 			base := uint64(5)
 			if hasLast[pi] {
 				base = last[pi]
+			}
+			// occasionally jump to a counter near a width boundary (uint32 / int64 / uint64 edges)
+			if rapid.IntRange(0, 7).Draw(rt, "issueJump") == 0 {
+				base = rapid.SampledFrom([]uint64{0, 1, 1<<31 - 1, 1 << 31, 1<<32 - 2, 1<<32 - 1, 1 << 32, 1<<63 - 2, 1<<63 - 1, 1 << 63, 1<<64 - 3}).Draw(rt, "issueEdge")
+				rec.Class("issue_number_edge")
 			}
 			delta := rapid.IntRange(-2, 3).Draw(rt, "issueDelta")
 			issue := base
